@@ -33,3 +33,40 @@ Theorem C03_domain_extremes :
   valid 10 63 18446744073709551614 /\ valid 11 18446744073709551615 18446744073709551614.
 Proof. unfold valid, U64MAX, W64. repeat split; lia. Qed.
 Print Assumptions C03_domain_extremes.
+
+(* ---- every configuration: the same statement on the word-level machines ---- *)
+From DSI Require Import Words Writer Reader Abs MachineTheorems.
+
+(* any writer word width (wordsize_ok W: a multiple of 8, >= 8), any fill state of its buffer *)
+Theorem C03_machines_writer :
+  forall E W D id p fl v b s, wrel E W b s -> valid id p v ->
+  (exists s', wrun (bwprims E W false) (sel_write E D false id p fl v) s = Ok (LEN (code_cw E id p v), s') /\
+              WInv W s' /\ wabs E W s' = b ++ code_cw E id p v)
+  \/ wrun (bwprims E W false) (sel_write E D false id p fl v) s = Err.
+Proof. exact MachineTheorems.code_write_machine. Qed.
+Print Assumptions C03_machines_writer.
+
+(* any buffered reader word width W <= 64 that serves the tables, any buffer state satisfying the
+   reader invariant, any position, any following bits (stream of at most 2^64 bits) *)
+Theorem C03_machines_reader :
+  forall E W D id p fl v s pos post,
+  RInv E W s pos -> W * N.of_nat (length (ws_words (br_src s))) <= 2 ^ 64 -> maxcap <= W ->
+  valid id p v ->
+  skipn (N.to_nat pos) (src_bits E W (br_src s)) = code_cw E id p v ++ post ->
+  exists s', rrun (brprims E W) (sel_read E D id p fl) s = Ok (v, s') /\
+             RInv E W s' (pos + LEN (code_cw E id p v)) /\
+             ws_words (br_src s') = ws_words (br_src s) /\ ws_strict (br_src s') = ws_strict (br_src s).
+Proof. exact MachineTheorems.code_read_machine. Qed.
+Print Assumptions C03_machines_reader.
+
+(* the unbuffered reader *)
+Theorem C03_machines_ureader :
+  forall E D id p fl v s post,
+  UInv s -> maxcap <= 32 -> valid id p v ->
+  ur_index s + LEN (code_cw E id p v) < 2 ^ 63 ->
+  skipn (N.to_nat (ur_index s)) (src_bits E 64 (ur_src s)) = code_cw E id p v ++ post ->
+  exists s', rrun (urprims E) (sel_read E D id p fl) s = Ok (v, s') /\
+             UInv s' /\ ur_index s' = ur_index s + LEN (code_cw E id p v) /\
+             ws_words (ur_src s') = ws_words (ur_src s).
+Proof. exact MachineTheorems.code_read_umachine. Qed.
+Print Assumptions C03_machines_ureader.
